@@ -115,6 +115,21 @@ def run(ctx):
                 break
             ev.append({"kind": "html", "obj": k, "reply": "x", "fresh": "x", "toks": toks, "post": post()})
         trs.append({"tid": i + 1, "ev": ev})
+    # every colour name next to itself: one trailing / leading control or blank character, a doubled or clipped letter, another
+    # case -- exactly the 17 names are colours
+    objs = {1: lc.SP("ACDEFGHIKLMNPQRSTVWY" * 2)}
+    ev = [{"kind": "construct", "obj": 1, "seq": list("ACDEFGHIKLMNPQRSTVWY" * 2), "post": {"objs": [objmodel.project(objs[1]), {"alive": False}], "spGrps": 0}}]
+    decos = [lambda c: c + "\n", lambda c: c + "\r", lambda c: c + "\r\n", lambda c: c + " ", lambda c: c + "\t", lambda c: "\n" + c, lambda c: " " + c,
+             lambda c: c + "\n\n", lambda c: c + "\x0b", lambda c: c + "\x0c", lambda c: c + "\x00", lambda c: c + "\u2028", lambda c: c + "\u00a0",
+             lambda c: c + c[-1], lambda c: c[:-1], lambda c: c.upper(), lambda c: c.capitalize(), lambda c: c + ";", lambda c: c]
+    for c in (objmodel.COLOURS if not ctx.quick else ctx.rng.sample(objmodel.COLOURS, 6) + ["red"]):
+        for deco in decos:
+            d = {a: ctx.rng.choice(objmodel.COLOURS) for a in common.AA}
+            d[ctx.rng.choice(common.AA)] = deco(c)
+            out = common.call(objs[1].set_HTMLColorResiduePalette, d)
+            ctx.evaluations += 1
+            ev.append({"kind": "set_palette", "obj": 1, "arg": c15.pal_json(d), "accepted": out[0] == "ok", "post": {"objs": [objmodel.project(objs[1]), {"alive": False}], "spGrps": 0}})
+    trs.append({"tid": len(trs) + 1, "ev": ev})
     # far beyond what TLC renders here (token lists of ten thousand entries): the same rule checked structurally
     for n_ in (8190, 8195, ctx.pick(9001, 20011)):
         seq = "".join(ctx.rng.choices(common.AA, k=n_))
